@@ -363,17 +363,18 @@ def _run_impl(case):
         y0 = pd.Series(y.to_numpy()[::-1] + 1.0, index=y.index)
         g0 = g if case["prior"] == "same" else tuner()
         try:
-            g0.fit(y0, X, fh=case["fit_fh"])
+            g0.fit(y0, X, fh=case["fit_fh"], **dict(case.get("fit_params") or {}))
         except (ValueError, TypeError):
             pass
     del c07.LOG[:]
+    fitkw = dict(case.get("fit_params") or {})
     try:
-        g.fit(y, X, fh=case["fit_fh"])
+        g.fit(y, X, fh=case["fit_fh"], **fitkw)
     except (ValueError, TypeError) as e:
         return {"err": type(e).__name__}
     log = [{"who": c["who"], "op": c["op"],
             "yt": None if "y" not in c else [c["y"][0][0], c["y"][-1][0], len(c["y"])],
-            "fh": c.get("fh")} for c in c07.LOG]
+            "fh": c.get("fh"), "kw": c.get("kw")} for c in c07.LOG]
     res = g.cv_results_
     col = metric_column(case["metric"])
     out = {"columns": sorted(str(c) for c in res.columns),
@@ -391,7 +392,7 @@ def _run_impl(case):
     for p in out["params"]:
         f = clone(base).set_params(**p)
         r = evaluate(f, c07.make_cv(case["splitter"]), y, X, strategy=case["strategy"],
-                     scoring=make_metric(case["metric"]))
+                     scoring=make_metric(case["metric"]), fit_params=fitkw or None)
         indep.append(float_ratio(r[col].mean()))
     out["indep_means"] = indep
     # the tuner after fit, and a forecaster constructed directly with the best parameters
@@ -412,7 +413,7 @@ def _fr(r):
 
 def _ref_mean(case, spec):
     sub = {"splitter": case["splitter"], "off": case["off"], "y": case["y"], "X": case.get("X"),
-           "strategy": case["strategy"], "fc": spec,
+           "strategy": case["strategy"], "fc": spec, "fit_params": case.get("fit_params"),
            "metric": "asym" if case["metric"] == "asym_gib" else case["metric"]}
     ref = c07.ref_eval(sub)
     if ref is None:
@@ -493,6 +494,10 @@ def oracle(case, out):
                 if d["who"] != k or p["who"] != k:
                     return "candidate-parameters-not-set: candidate %d calls logged by %s, " \
                            "expected %s" % (i, d["who"], k)
+                if d["op"] == "fit" and (d.get("kw") or {}) != (case.get("fit_params") or {}):
+                    return "candidate-fit-params-not-passed: candidate %d fold %d was fitted " \
+                           "with keyword arguments %s, the tuner's fit was given %s" % (
+                               i, j, d.get("kw"), case.get("fit_params"))
                 if d["op"] != want_op or p["op"] != "predict":
                     return "candidate-call-sequence: candidate %d fold %d got %s/%s" % (
                         i, j, d["op"], p["op"])
@@ -697,7 +702,13 @@ def gen_cases(rng, tier):
         m = rng.randint(1, 3)
         fh1 = sorted(rng.sample(range(1, 4), rng.randint(1, 2)))
         fh2 = sorted(rng.sample(range(1, 4), rng.randint(1, 2)))
+        # fit keywords handed to the tuner's fit reach every fit of every candidate's evaluation (only
+        # the recording double accepts one; such searches are checked by the oracle, not inside Coq)
+        fit_params = None
+        if fam == "double" and rng.random() < 0.3:
+            fit_params = {"boost": rng.choice([-3, -1, 1, 2, 5])}
         cases.append({
+            "fit_params": fit_params,
             "kind": "tune", "search": search, "n_iter": n_iter, "seed": seed, "rs": rs, "fam": fam,
             "base": base, "grid": grid, "form": form,
             "prior": rng.choice([None, None, None, None, None, None, None, "same", "other",
@@ -733,6 +744,10 @@ def shrink(case):
     if c.get("prior"):
         d = dict(c)
         d["prior"] = None
+        yield d
+    if c.get("fit_params"):
+        d = dict(c)
+        d["fit_params"] = None
         yield d
     # drop a sub-grid, a value, a key
     if len(subs) > 1:
@@ -913,6 +928,8 @@ def _c_args(case, cands):
 
 
 def coq_case(case, out):
+    if case.get("fit_params"):
+        return None        # the Coq model of the search has no fit keywords (C07 owns them)
     if "err" in out:
         # the candidate list of a rejected search is the grid (never evaluated)
         cands = grid_order(case["grid"])
@@ -958,6 +975,7 @@ def distribution(cases, results):
                 d["scipy-distribution=%s" % _has_dist(c["grid"])] += 1
             d["space=%s" % c.get("form", "dict")] += 1
             d["prior-search=%s" % c.get("prior")] += 1
+            d["fit-keywords=%s" % bool(c.get("fit_params"))] += 1
             keysets = set(tuple(sorted(p)) for p in o["params"])
             d["candidates-name-different-parameters=%s" % (len(keysets) > 1)] += 1
             d["empty-dict-candidate=%s" % ({} in o["params"])] += 1
